@@ -684,45 +684,6 @@ theorem leafRow_shape {db db' : DB} (hs : SameShape db db') {m i : Nat} (hl : Le
   | none => simp [h'] at this
   | some r' => simp [h'] at this; exact ⟨r', h', by rw [this, hc]⟩
 
-theorem step_preserves {T : Tree} (h : T.WF) {db : DB} (inv : NoOrphan T db) (op : Op) :
-    NoOrphan T (step T db op).1 := by
-  cases op with
-  | create c id vals => exact create_preserves h inv c id vals
-  | write e i a k v =>
-    simp only [step, writeVia]
-    cases hg : get T db e i with
-    | ok m =>
-      simp only [writeInst]
-      split
-      · exact (updateRow_shape db a i k v).noOrphan inv
-      · exact inv
-    | notFound => exact inv
-    | keyError => exact inv
-  | set e i kvs =>
-    simp only [step, setVia]
-    cases hg : get T db e i with
-    | ok m =>
-      simp only [setInst]
-      split
-      · exact (foldl_update_shape i kvs db).noOrphan inv
-      · exact inv
-    | notFound => exact inv
-    | keyError => exact inv
-  | destroy e i =>
-    simp only [step, destroyVia]
-    cases hg : get T db e i with
-    | ok m =>
-      have hw : Extracted.destroyWalksParents = true := rfl
-      simp only [destroyInst, hw]
-      exact destroy_preserves h inv _ (get_ok_inv h inv hg).1
-    | notFound => exact inv
-    | keyError => exact inv
-
-theorem run_preserves {T : Tree} (h : T.WF) (ops : List Op) : ∀ db, NoOrphan T db → NoOrphan T (run T ops db) := by
-  induction ops with
-  | nil => intro db inv; exact inv
-  | cons op rest ih => intro db inv; exact ih _ (step_preserves h inv op)
-
 theorem noOrphan_empty (T : Tree) : NoOrphan T DB.empty :=
   ⟨fun _ _ _ _ hr => by simp [DB.has, DB.empty] at hr, fun _ _ _ _ hr => by simp [DB.empty] at hr⟩
 
@@ -796,6 +757,138 @@ theorem selectByRow_eq {T : Tree} (h : T.WF) {db : DB} (inv : NoOrphan T db) (c 
       if (db.has c i && kvsHold db i kvs) = true then some (get T db c i) else none := by
   unfold selectByRow
   rw [joinUp_eq h inv c i (byNeeded c kvs) (by simp [byNeeded])]
+
+/-! ## class-level bulk deletes -/
+
+/-- the invariant speaks about one id at a time -/
+theorem noOrphan_of_pointwise {T : Tree} {db' : DB}
+    (hp : ∀ j, ∃ d, NoOrphan T d ∧ ∀ x, db' x j = d x j) : NoOrphan T db' := by
+  constructor
+  · intro c p i hpar hrow
+    obtain ⟨d, invd, hd⟩ := hp i
+    have : d.has c i = true := by unfold DB.has at hrow ⊢; rw [← hd]; exact hrow
+    obtain ⟨r, hr, hrc⟩ := invd.up c p i hpar this
+    exact ⟨r, by rw [hd]; exact hr, hrc⟩
+  · intro p i r c hr hrc
+    obtain ⟨d, invd, hd⟩ := hp i
+    rw [hd] at hr
+    obtain ⟨hpar, hrow⟩ := invd.down p i r c hr hrc
+    exact ⟨hpar, by unfold DB.has at hrow ⊢; rw [hd]; exact hrow⟩
+
+theorem deleteSel_spec (T : Tree) (db : DB) (c : Nat) (sel : Nat → Option Res) (c' j : Nat) :
+    deleteSel T db c sel c' j =
+      match sel j with
+      | some (.ok m) => if c' ∈ T.anc m then none else db c' j
+      | _ => db c' j := by
+  have hb : Extracted.bulkDeleteDestroys = true := rfl
+  have hw : Extracted.destroyWalksParents = true := rfl
+  unfold deleteSel
+  simp only [hb, if_true]
+  cases hs : sel j with
+  | none => rfl
+  | some res =>
+    cases res with
+    | ok m => simp [destroyInst, hw, destroyG_spec]
+    | notFound => rfl
+    | keyError => rfl
+
+theorem deleteSel_preserves {T : Tree} (h : T.WF) {db : DB} (inv : NoOrphan T db) (c : Nat)
+    (sel : Nat → Option Res) (hsel : ∀ j m, sel j = some (.ok m) → LeafRow db m j) :
+    NoOrphan T (deleteSel T db c sel) := by
+  apply noOrphan_of_pointwise
+  intro j
+  cases hs : sel j with
+  | none => exact ⟨db, inv, fun x => by rw [deleteSel_spec, hs]⟩
+  | some res =>
+    cases res with
+    | ok m =>
+      refine ⟨destroyG true true T db m j, destroy_preserves h inv true (hsel j m hs), ?_⟩
+      intro x
+      rw [deleteSel_spec, hs, destroyG_spec]
+      simp
+    | notFound => exact ⟨db, inv, fun x => by rw [deleteSel_spec, hs]⟩
+    | keyError => exact ⟨db, inv, fun x => by rw [deleteSel_spec, hs]⟩
+
+theorem selectRow_ok {T : Tree} (h : T.WF) {db : DB} (inv : NoOrphan T db) {c : Nat} {f : Filter}
+    {j : Nat} {res : Res} (hs : selectRow T db c f j = some res) :
+    db.has c j = true ∧ f.eval db j = true ∧ ∃ m, res = .ok m ∧ LeafRow db m j ∧ c ∈ T.anc m := by
+  rw [selectRow_eq h inv] at hs
+  by_cases hc : (db.has c j && f.eval db j) = true
+  · simp only [hc, if_true, Option.some.injEq] at hs
+    simp only [Bool.and_eq_true] at hc
+    have hroot := rows_up h inv j c hc.1 (T.root c) (root_mem_anc h c)
+    obtain ⟨m, hget, hleaf, hrm⟩ := get_ok h inv hroot
+    exact ⟨hc.1, hc.2, m, by rw [← hs, hget], hleaf,
+      on_leaf_chain h inv hleaf c hc.1 ⟨T.root c, root_mem_anc h c, hrm⟩⟩
+  · simp [hc] at hs
+
+theorem selectByRow_ok {T : Tree} (h : T.WF) {db : DB} (inv : NoOrphan T db) {c : Nat}
+    {kvs : List (Nat × Nat × Val)} {j : Nat} {res : Res} (hs : selectByRow T db c kvs j = some res) :
+    db.has c j = true ∧ kvsHold db j kvs = true ∧ ∃ m, res = .ok m ∧ LeafRow db m j ∧ c ∈ T.anc m := by
+  rw [selectByRow_eq h inv] at hs
+  by_cases hc : (db.has c j && kvsHold db j kvs) = true
+  · simp only [hc, if_true, Option.some.injEq] at hs
+    simp only [Bool.and_eq_true] at hc
+    obtain ⟨m, hget, hleaf, hcm⟩ := get_ok h inv hc.1
+    exact ⟨hc.1, hc.2, m, by rw [← hs, hget], hleaf, hcm⟩
+  · simp [hc] at hs
+
+theorem deleteMany_preserves {T : Tree} (h : T.WF) {db : DB} (inv : NoOrphan T db) (c : Nat) (f : Filter) :
+    NoOrphan T (deleteMany T db c f) := by
+  apply deleteSel_preserves h inv
+  intro j m hs
+  obtain ⟨_, _, m', hm', hleaf, _⟩ := selectRow_ok h inv hs
+  cases hm'; exact hleaf
+
+theorem deleteBy_preserves {T : Tree} (h : T.WF) {db : DB} (inv : NoOrphan T db) (c : Nat)
+    (kvs : List (Nat × Nat × Val)) : NoOrphan T (deleteBy T db c kvs) := by
+  apply deleteSel_preserves h inv
+  intro j m hs
+  obtain ⟨_, _, m', hm', hleaf, _⟩ := selectByRow_ok h inv hs
+  cases hm'; exact hleaf
+
+/-! ## histories -/
+
+theorem step_preserves {T : Tree} (h : T.WF) {db : DB} (inv : NoOrphan T db) (op : Op) :
+    NoOrphan T (step T db op).1 := by
+  cases op with
+  | create c id vals => exact create_preserves h inv c id vals
+  | write e i a k v =>
+    simp only [step, writeVia]
+    cases hg : get T db e i with
+    | ok m =>
+      simp only [writeInst]
+      split
+      · exact (updateRow_shape db a i k v).noOrphan inv
+      · exact inv
+    | notFound => exact inv
+    | keyError => exact inv
+  | set e i kvs =>
+    simp only [step, setVia]
+    cases hg : get T db e i with
+    | ok m =>
+      simp only [setInst]
+      split
+      · exact (foldl_update_shape i kvs db).noOrphan inv
+      · exact inv
+    | notFound => exact inv
+    | keyError => exact inv
+  | destroy e i =>
+    simp only [step, destroyVia]
+    cases hg : get T db e i with
+    | ok m =>
+      have hw : Extracted.destroyWalksParents = true := rfl
+      simp only [destroyInst, hw]
+      exact destroy_preserves h inv _ (get_ok_inv h inv hg).1
+    | notFound => exact inv
+    | keyError => exact inv
+  | deleteMany c f => exact deleteMany_preserves h inv c f
+  | deleteBy c kvs => exact deleteBy_preserves h inv c kvs
+
+theorem run_preserves {T : Tree} (h : T.WF) (ops : List Op) : ∀ db, NoOrphan T db → NoOrphan T (run T ops db) := by
+  induction ops with
+  | nil => intro db inv; exact inv
+  | cons op rest ih => intro db inv; exact ih _ (step_preserves h inv op)
 
 /-! ## `set(**kw)` -/
 
